@@ -13,13 +13,13 @@
      n     : elements_added
      out   : history oracle, outstanding additions per key since the last clear (never read by operations)
 
-   Operations: <<"add", who, key, amount>>  <<"rem", who, key, amount>> (counting only; only legitimate
+   Operations: <<"rt", who, channel, 0>> (export + load)  <<"add", who, key, amount>>  <<"rem", who, key, amount>> (counting only; only legitimate
    removals are generated: amount <= outstanding count, or the key is reported absent)  <<"clear", who>>.
    Saturation (C16): a cell is pinned at CellMax, the counter at TotMax; a counting cell that reached
    CellMax is never decremented again.                                                               *)
 EXTENDS Integers, Sequences, FiniteSets, TLC, Json
 
-CONSTANTS Keys, M, K, Tables, Counting, CellMax, TotMax, Amts, MaxN, MaxDepth, Whos
+CONSTANTS Keys, M, K, Tables, Counting, CellMax, TotMax, Amts, MaxN, MaxDepth, Whos, Channels, MaxReloads
 
 VARIABLES pos, fs, hist, last
 vars == <<pos, fs, hist, last>>
@@ -27,8 +27,9 @@ vars == <<pos, fs, hist, last>>
 Mn(a, b) == IF a < b THEN a ELSE b
 P(k, i) == (pos[k][i] % M) + 1            \* 1-based cell index of the i-th position of key k
 
-EmptyF == [cells |-> [p \in 1..M |-> 0], n |-> 0, out |-> [k \in Keys |-> 0], sat |-> FALSE]
+EmptyF == [cells |-> [p \in 1..M |-> 0], n |-> 0, out |-> [k \in Keys |-> 0], sat |-> FALSE, rl |-> 0]
    \* sat (history oracle): some cell or the counter has been clamped since the last clear
+   \* rl: number of export+load round trips the object went through (part of the state, so histories continue on the restored object)
 
 -----------------------------------------------------------------------------
 (* add: the K positions are updated one after the other, so coinciding positions are hit once per
@@ -43,7 +44,7 @@ AddCells(cells, k, amt, i, mn) ==
 AddF(f, k, amt) ==
   LET r == AddCells(f.cells, k, amt, 1, -1) IN
   [f |-> [cells |-> r[1], n |-> Mn(f.n + amt, TotMax), out |-> [f.out EXCEPT ![k] = @ + amt],
-          sat |-> f.sat \/ f.n + amt >= TotMax \/ (Counting /\ \E p \in 1..M : r[1][p] >= CellMax)],
+          sat |-> f.sat \/ f.n + amt >= TotMax \/ (Counting /\ \E p \in 1..M : r[1][p] >= CellMax), rl |-> f.rl],
    ret |-> IF Counting THEN r[2] ELSE -1]
 
 Est(f, k) ==      \* check(): minimum over the key's cells (1/0 for the plain filter)
@@ -61,7 +62,7 @@ RemF(f, k, amt) ==
   ELSE IF mv = 0 THEN [f |-> f, ret |-> 0]                   \* reported absent: nothing changes
   ELSE LET t == Mn(amt, mv) IN
        [f |-> [cells |-> SubCells(f.cells, k, t, 1), n |-> f.n - t,
-               out |-> [f.out EXCEPT ![k] = IF @ >= t THEN @ - t ELSE 0], sat |-> f.sat],
+               out |-> [f.out EXCEPT ![k] = IF @ >= t THEN @ - t ELSE 0], sat |-> f.sat, rl |-> f.rl],
         ret |-> mv - t]
 
 -----------------------------------------------------------------------------
@@ -81,6 +82,7 @@ LegitRem(f, k, amt) == amt <= f.out[k] \/ Est(f, k) = 0
 Ops == {<<"add", w, k, a>> : w \in Whos, k \in Keys, a \in Amts}
        \cup (IF Counting THEN {<<"rem", w, k, a>> : w \in Whos, k \in Keys, a \in Amts} ELSE {})
        \cup {<<"clear", w, "", 0>> : w \in Whos}
+       \cup {<<"rt", w, c, 0>> : w \in Whos, c \in Channels}          \* export + load through channel c: identity on the abstract state
 
 Init == /\ pos \in Tables
         /\ fs = [w \in {"A", "B"} |-> EmptyF]
@@ -90,7 +92,9 @@ Do(o) == LET w == o[2]  f == fs[w] IN
          /\ CASE o[1] = "add" -> LET r == AddF(f, o[3], o[4]) IN fs' = [fs EXCEPT ![w] = r.f] /\ last' = [o |-> o, ret |-> r.ret]
               [] o[1] = "rem" -> /\ LegitRem(f, o[3], o[4])
                                  /\ LET r == RemF(f, o[3], o[4]) IN fs' = [fs EXCEPT ![w] = r.f] /\ last' = [o |-> o, ret |-> r.ret]
-              [] o[1] = "clear" -> fs' = [fs EXCEPT ![w] = EmptyF] /\ last' = [o |-> o, ret |-> -1]
+              [] o[1] = "clear" -> fs' = [fs EXCEPT ![w] = [EmptyF EXCEPT !.rl = f.rl]] /\ last' = [o |-> o, ret |-> -1]
+              [] o[1] = "rt" -> /\ f.rl < MaxReloads
+                                /\ fs' = [fs EXCEPT ![w].rl = @ + 1] /\ last' = [o |-> o, ret |-> -1]
          /\ hist' = Append(hist, o)
          /\ UNCHANGED pos
 
@@ -107,13 +111,13 @@ NoFalseNegative ==                                   \* C01 / C08: never below t
   \A w \in {"A", "B"} : \A k \in Keys :
      fs[w].out[k] > 0 => (IF Counting THEN Est(fs[w], k) >= Mn(fs[w].out[k], CellMax) ELSE Est(fs[w], k) = 1)
 UnionSuperset ==                                     \* C12: the union reports every key either operand reports
-  LET u == [cells |-> UnionCells(fs["A"], fs["B"]), n |-> 0, out |-> EmptyF.out, sat |-> FALSE] IN
+  LET u == [cells |-> UnionCells(fs["A"], fs["B"]), n |-> 0, out |-> EmptyF.out, sat |-> FALSE, rl |-> 0] IN
   \A k \in Keys : (Est(fs["A"], k) > 0 \/ Est(fs["B"], k) > 0) => Est(u, k) > 0
 UnionSumLower ==                                     \* C12: never below the sum of the operands' true counts
-  LET u == [cells |-> UnionCells(fs["A"], fs["B"]), n |-> 0, out |-> EmptyF.out, sat |-> FALSE] IN
+  LET u == [cells |-> UnionCells(fs["A"], fs["B"]), n |-> 0, out |-> EmptyF.out, sat |-> FALSE, rl |-> 0] IN
   Counting => \A k \in Keys : Est(u, k) >= Mn(fs["A"].out[k] + fs["B"].out[k], CellMax)
 InterBoth ==                                         \* C13: the intersection reports every key both report
-  LET x == [cells |-> InterCells(fs["A"], fs["B"]), n |-> 0, out |-> EmptyF.out, sat |-> FALSE] IN
+  LET x == [cells |-> InterCells(fs["A"], fs["B"]), n |-> 0, out |-> EmptyF.out, sat |-> FALSE, rl |-> 0] IN
   \A k \in Keys : (Est(fs["A"], k) > 0 /\ Est(fs["B"], k) > 0) => Est(x, k) > 0
 JaccardOK == LET j == Jaccard(fs["A"], fs["B"]) IN                    \* C13
              /\ j[1] >= 0 /\ j[1] <= j[2] /\ j = Jaccard(fs["B"], fs["A"])
